@@ -39,7 +39,7 @@ _POST = {"evals": 0, "viol": []}
 
 
 def lanes(tier):
-    return [("plain", "plain", 400 if tier == "quick" else 20000)]
+    return [("plain", "plain", 1200 if tier == "quick" else 20000)]
 
 
 def _pieces_ok(self, result):
